@@ -15,8 +15,8 @@ import checks  # /verif/checks.py
 TRUSTED_BASE_COMMON = [
     "Verus 0.2026.09.13 + Z3, Kani 0.68 + CBMC 6.11 (CaDiCaL), rustc: the verifiers themselves",
     "nom 7.1.3 / nom-derive / phf / cookie-factory / core+alloc: executed for real (bit-precise) under Kani within the stated length bounds; under Verus only through the shim contracts in /verif/verus/shim_nom.rs, each of which is an obligation of a Kani shim_* harness",
-    "Verus extraction rewrites R0-R7 (logged as diffs in this file under coverage.extraction_diffs)",
-    "vstd specifications of Vec / slice / Option",
+    "Verus extraction rewrites R0-R19 and the trait item kind (DESIGN 2.2; logged per item as diffs in this file under coverage.extraction_diffs)",
+    "vstd specifications of Vec / slice / Option / Result; the std shim verus/shim_std.rs (iterator chains, slice->array conversions, u32::from_be_bytes: assumed in Verus, each an obligation of a Kani shim_* harness on the real core/alloc)",
     "machine arithmetic is NOT treated as mathematical: Verus exec integers carry overflow obligations, Kani is bit-precise",
 ]
 
